@@ -1,5 +1,5 @@
 // C13: FileContentsWithChunkedCaching over an in-memory, logging source.
-// Case tokens: F <len> | Z <pos> (byte 0 at pos) | T <pos> (byte 10 at pos) | A <off> <size> | U <start> <end> <delim> | I <off> <size> <prefill> (read_bytes_into)
+// Case tokens: F <len> | Z <pos> (byte 0 at pos) | T <pos> (byte 10 at pos) | A <off> <size> | U <start> <end> <delim> | I <off> <size> <prefill> (read_bytes_into) | X (the next read of the source fails once; a call during which that happened is marked '!')
 // File bytes default to 1 + (i mod 7).  Outcome per op: K<n> (Ok, n bytes, equal to file[start..start+n)) | W<n> (Ok, other bytes) | E | P,
 // then "| off:size ..." = the reads issued to the source.
 use samply_symbols::{FileByteSource, FileContents, FileContentsWithChunkedCaching};
@@ -9,11 +9,18 @@ use std::sync::{Arc, Mutex};
 struct Src {
     data: Arc<Vec<u8>>,
     log: Arc<Mutex<Vec<(u64, usize)>>>,
+    // fail_next: the next read of the source fails (a transient I/O error); failed: a read has failed since the flag was last cleared
+    fail_next: Arc<std::sync::atomic::AtomicBool>,
+    failed: Arc<std::sync::atomic::AtomicBool>,
 }
 
 impl FileByteSource for Src {
     fn read_bytes_into(&self, buffer: &mut Vec<u8>, offset: u64, size: usize) -> Result<(), Box<dyn std::error::Error + Send + Sync>> {
         self.log.lock().unwrap().push((offset, size));
+        if self.fail_next.swap(false, std::sync::atomic::Ordering::SeqCst) {
+            self.failed.store(true, std::sync::atomic::Ordering::SeqCst);
+            return Err("transient read error".into());
+        }
         let end = (offset as usize).checked_add(size).ok_or("overflow")?;
         if end > self.data.len() {
             return Err("out of bounds".into());
@@ -94,7 +101,9 @@ pub fn run_mt(toks: &[&str]) -> String {
     let mut result: Vec<Vec<String>> = Vec::new();
     for round in 0..rounds {
         let log = Arc::new(Mutex::new(Vec::new()));
-        let fc = Arc::new(FileContentsWithChunkedCaching::new(data.len() as u64, Src { data: data.clone(), log: log.clone() }));
+        let fail_next = Arc::new(std::sync::atomic::AtomicBool::new(false));
+        let failed = Arc::new(std::sync::atomic::AtomicBool::new(false));
+        let fc = Arc::new(FileContentsWithChunkedCaching::new(data.len() as u64, Src { data: data.clone(), log: log.clone(), fail_next: fail_next.clone(), failed: failed.clone() }));
         let barrier = Arc::new(std::sync::Barrier::new(threads.len().max(1)));
         let handles: Vec<_> = threads
             .iter()
@@ -174,14 +183,27 @@ pub fn run(toks: &[&str]) -> String {
                 ops.push(('I', toks[i + 1].parse().unwrap(), toks[i + 2].parse().unwrap(), toks[i + 3].parse().unwrap()));
                 i += 4;
             }
+            "X" => {
+                // the next read the cache issues to the source fails once
+                ops.push(('X', 0, 0, 0));
+                i += 1;
+            }
             t => panic!("bad token {t}"),
         }
     }
     let data = Arc::new(data);
     let log = Arc::new(Mutex::new(Vec::new()));
-    let fc = FileContentsWithChunkedCaching::new(data.len() as u64, Src { data: data.clone(), log: log.clone() });
+    let fail_next = Arc::new(std::sync::atomic::AtomicBool::new(false));
+    let failed = Arc::new(std::sync::atomic::AtomicBool::new(false));
+    let fc = FileContentsWithChunkedCaching::new(data.len() as u64, Src { data: data.clone(), log: log.clone(), fail_next: fail_next.clone(), failed: failed.clone() });
     let mut out: Vec<String> = Vec::new();
     for (k, a, b, d) in ops {
+        if k == 'X' {
+            fail_next.store(true, std::sync::atomic::Ordering::SeqCst);
+            out.push("x".to_string());
+            continue;
+        }
+        failed.store(false, std::sync::atomic::Ordering::SeqCst);
         let r = catch_unwind(AssertUnwindSafe(|| {
             if k == 'I' {
                 return read_into(&fc, &data, a, b, d);
@@ -196,7 +218,12 @@ pub fn run(toks: &[&str]) -> String {
                 Err(_) => "E".to_string(),
             }
         }));
-        out.push(r.unwrap_or_else(|_| "P".to_string()));
+        // "!" marks a call during which the source failed: that call may fail, and must leave no trace
+        let mut tok = r.unwrap_or_else(|_| "P".to_string());
+        if failed.load(std::sync::atomic::Ordering::SeqCst) {
+            tok.push('!');
+        }
+        out.push(tok);
     }
     let reads: Vec<String> = log.lock().unwrap().iter().map(|(o, s)| format!("{}:{}", o, s)).collect();
     format!("{} | {}", out.join(" "), reads.join(" "))
